@@ -84,7 +84,7 @@ func NewLegacyAOFReader(r io.Reader) *LegacyAOFReader {
 }
 
 func (s *Server) migrateAOF() error {
-	_, err := os.Stat(path.Join(s.dir, "appendonly.aof"))
+	_, err := os.Stat(s.opts.AppendFileName)
 	if err == nil {
 		return nil
 	}
@@ -155,5 +155,5 @@ func (s *Server) migrateAOF() error {
 	oldf.Close()
 	newf.Close()
 	log.Debugf("%d items: %.0f/sec", count, float64(count)/(float64(time.Since(start))/float64(time.Second)))
-	return os.Rename(path.Join(s.dir, "migrate.aof"), path.Join(s.dir, "appendonly.aof"))
+	return os.Rename(path.Join(s.dir, "migrate.aof"), s.opts.AppendFileName)
 }
